@@ -142,6 +142,30 @@ M['S14_builtin_next_back_skips_first'] = [(LS, '''        if self.iter_pos == se
             self.iter_pos += 1;
             self.data.get(self.data.len() - self.iter_pos).copied()''')]
 
+M['S16_global_scratch_locked_per_chunk'] = [(LSF, READ_BLOCK, '''        // Reuse one process-wide scratch buffer instead of allocating per call.
+        use std::sync::Mutex;
+        static SCRATCH: Mutex<Vec<u8>> = Mutex::new(Vec::new());
+        SCRATCH.lock().unwrap().clear();
+        let mut buf = [0u8; 4096];
+        loop {
+            match f.read(&mut buf) {
+                Ok(0) => break,
+                Ok(n) => SCRATCH.lock().unwrap().extend_from_slice(&buf[..n]),
+                Err(e) if e.kind() == std::io::ErrorKind::Interrupted => continue,
+                Err(e) => return Err(%s),
+            }
+        }
+        let contents = match String::from_utf8(SCRATCH.lock().unwrap().clone()) {
+            Ok(s) => s,
+            Err(_) => {
+                return Err(HifitimeError::Parse {
+                    source: ParsingError::InOut { err: std::io::ErrorKind::InvalidData },
+                    details: "reading leap seconds file",
+                })
+            }
+        };
+''' % IOERR)]
+
 # ---- refactors: each preserves the clause; the check must stay silent ---------------------
 R = {}
 R['R1_bufreader_linewise'] = [(LSF, READ_BLOCK, '''        use std::io::BufRead;
@@ -243,6 +267,15 @@ R['R6_reopen_once_on_read_error'] = [(LSF, READ_BLOCK, '''        let mut conten
 R['R7_metadata_size_hint'] = [(LSF, '        let mut contents = String::new();\n        if let Err(e) = f.read_to_string',
    '        let mut contents = String::with_capacity(std::fs::metadata(&path2).map(|m| m.len() as usize).unwrap_or(0));\n        if let Err(e) = f.read_to_string'),
    (LSF, '        let mut f = match File::open(path) {', '        let path2 = path.as_ref().to_path_buf();\n        let mut f = match File::open(path) {')]
+
+R['R8_global_lock_held_across_reads'] = [(LSF, '''        #[cfg(feature = "verif_seam")]
+        use super::verif_seam::File;
+''', '''        #[cfg(feature = "verif_seam")]
+        use super::verif_seam::File;
+        // Serialise loaders process-wide (e.g. to bound file descriptor use).
+        static LOADING: std::sync::Mutex<()> = std::sync::Mutex::new(());
+        let _serialised = LOADING.lock().unwrap_or_else(|e| e.into_inner());
+''')]
 
 def run(*a, **k):
     return subprocess.run(a, cwd=wt, check=True, capture_output=True, text=True, **k)
